@@ -167,3 +167,8 @@ m("C14", ["R35"], EX, "            let y = libm::round(self.hi + self.hi);", "  
 m("C13", ["R26"], B, "let result = self.powu(n.unsigned_abs());", "let result = self.powu(n as u32);", "the extracted loop helper is handed `n as u32` instead of |n| (wrong for every negative exponent)", on="K0-1")
 m("C13", ["R26"], B, "            value *= value;\n            n_pos >>= 1;\n        }\n        result\n    }", "            value *= value;\n            n_pos >>= 2;\n        }\n        result\n    }", "the extracted loop helper consumes two exponent bits per squaring", on="K0-1")
 m("C13", ["R26"], B, "        let mut value = self;\n        while n_pos > 0 {", "        let mut value = self * self;\n        while n_pos > 0 {", "the extracted loop helper starts from self^2", on="K0-1")
+# the clean halves of round 16's two-site defects (refactorings K0-2 .. K0-4)
+m("C04", ["R8"], A, "        mul_dw_f64(rhs.hi, rhs.lo, *self)", "        mul_dw_f64(*self, rhs.lo, rhs.hi)", "the shared Algorithm 9 kernel is called with the single word in the double-word slot by the mirrored f64 * TwoFloat form", on="K0-2")
+m("C09", ["R23"], NI, "    fn from_isize(n: isize) -> Option<Self> {\n        from_word(n as i64)", "    fn from_isize(n: isize) -> Option<Self> {\n        from_word(n as i32 as i64)", "the pointer-sized route narrows to 32 bits on its way to the 64-bit helper", on="K0-3")
+m("C07", ["R18"], B, "        no_overlap_abs(-a, -b)", "        no_overlap_abs(-a, b)", "the sign-dispatching wrapper of no_overlap negates the high word only", on="K0-4")
+m("C07", ["R18"], B, "(bits & MANTISSA_MASK) == 0 && b.is_sign_negative() {", "(bits & MANTISSA_MASK) == 0 && b.is_sign_positive() {", "the core of no_overlap halves the limit on the wrong side of a power of two", on="K0-4")
